@@ -281,7 +281,7 @@ func checkC10(c *Case, s *Stats) error {
 	fp, inStep := 0, 0
 	for _, x := range qs {
 		x := x
-		err := guard(fmt.Sprintf("lookup of %s", q(x)), func() error {
+		err := guardHang("C10", c, s, fmt.Sprintf("lookup of %s", q(x)), func() error {
 			v, found := st.Get(x)
 			id := st.GetID(x)
 			if found != (id >= 0) {
